@@ -42,7 +42,6 @@ CFG = {
         "Swat4.C12.lost_if_dies",
         "Swat4.C12.witnessOne_init",
         "Swat4.C12.lost_if_dies_done",
-        "Swat4.C12.never_queued_explicit",
         "Swat4.C12.queued_otherwise",
         "Swat4.C12.implicit_ready_always_queued",
         "Swat4.C12.pastExpiry_init",
@@ -68,6 +67,7 @@ CFG = {
         {"name": "Swat4.C12.enqueue_one_batch", "why": "read-back of the definition (`qstep` on `.enqueue … .start` by `rfl`)"},
         {"name": "Swat4.C12.enqueue_uses_fresh", "why": "read-back of the definition (`qstep` / `enqueueBatch` by `rfl`; the reachable-state statement is ids_fresh)"},
         {"name": "Swat4.C12.pop_nonpositive", "why": "read-back of the definition (`QOp.begin` unfolded)"},
+        {"name": "Swat4.C12.never_queued_explicit", "why": "read-back of the definition (`QOp.begin` by cases on the two bounds); the system-level statement is never_queued_explicit_sys (audited)"},
     ],
     "shards": (4, 16),
     "nontrivial": _nontrivial,
@@ -103,7 +103,7 @@ CFG = {
                 "batch), not_late (returned => no expiry or expiry >= clock at the pop batch; otherwise counted), no_leak_run / no_leak_finish "
                 "(C10 invariant at every reachable state), conservation_final / timing_final (same in the state after the driver's completion "
                 "phase). The clause 'a probe whose ready time is not earlier than its expiry is never queued' "
-                "is FALSE of model and code for an implicit ready time: never_queued_explicit (the call issues no command IFF both bounds are explicit and after >= before), "
+                "is FALSE of model and code for an implicit ready time: never_queued_explicit [supporting read-back of QOp.begin, not audited] (the call issues no command IFF both bounds are explicit and after >= before), "
                 "never_queued_explicit_sys / ready_past_expiry_only_implicit (every interleaving: each accepted enqueue record is attributed to its producing call enqueue probe after expires, and an explicit after is the record's ready time and strictly before an explicit expiry; "
                 "hence a queued probe with ready >= expiry can only stem from an implicit ready time), "
                 "implicit_ready_always_queued / implicit_ready_past_expiry_is_queued (enqueue p none (some b) is queued whatever the clock, e.g. clock 100 >= b 50: checked witness; probes.go tests "
